@@ -176,9 +176,9 @@ def run(ctx):
     tp = os.path.join(wd, "trace.ndjson")
     args = [binp, "-trace", tp, "-seed", str(ctx.seed)]
     if quick:
-        args += ["-folds", "2000", "-sums", "6", "-packets", "55", "-flippackets", "200", "-flips", "12", "-allbits", "2"]
+        args += ["-folds", "1000", "-sums", "6", "-packets", "50", "-flippackets", "200", "-flips", "10", "-allbits", "2"]
     else:
-        args += ["-foldall", "-folds", "40000", "-sums", "60", "-packets", "700", "-flippackets", "2500", "-flips", "40", "-allbits", "150",
+        args += ["-foldall", "-folds", "40000", "-sums", "60", "-packets", "600", "-flippackets", "2000", "-flips", "40", "-allbits", "100",
                  "-maxpay", "30", "-sweep"]
     p = vlib.run(args, timeout=1800, ok_codes=(0, 3))
     try:
@@ -187,14 +187,16 @@ def run(ctx):
         raise vlib.Infra("cksum driver printed no statistics:\n%s" % p.stdout[-2000:])
     if p.returncode == 3 or dstat.get("hang"):
         V.reject({"reason": "hang", "proto": "", "ipver": 0}, {"note": "driver watchdog: a library call did not return", "stats": dstat})
-    log("[C08] driver: %d events (%d fold, %d sum, %d ser, %d verify, %d pverify, %d flips) in %.1fs" % (
-        dstat["events"], dstat.get("fold", 0), dstat.get("sum", 0), dstat.get("ser", 0), dstat.get("verify", 0),
-        dstat.get("pverify", 0), dstat.get("flips", 0), time.time() - t0))
-    parts = split_trace(tp, wd, 3000 if quick else 12000)
+    log("[C08] driver: %d events (%d fold, %d sum, %d ser + %d again / %d decoded / %d garbage-field ser, %d verify, "
+        "%d pverify, %d flips) in %.1fs" % (
+            dstat["events"], dstat.get("fold", 0), dstat.get("sum", 0), dstat.get("ser", 0), dstat.get("ser_again", 0),
+            dstat.get("ser_decoded", 0), dstat.get("ser_garbage", 0), dstat.get("verify", 0),
+            dstat.get("pverify", 0), dstat.get("flips", 0), time.time() - t0))
+    parts = split_trace(tp, wd, 2500 if quick else 12000)
     head = pick_events(tp)
     st = selftest(head, wd)
     log("[C08] self-test: %d corrupted events rejected with the expected reasons" % st["corrupted_events"])
-    res = validate_parts(parts, "c08", 4 if quick else 8)
+    res = validate_parts(parts, "c08", 6 if quick else 8)
     tstates = sum(v["states"] for v in res)
     nbad = sum(v["nbad"] for v in res)
     cnt = {}
